@@ -140,6 +140,11 @@ def _vacuum(rep):
                contracts={GEO + ":get_thickness": thickness_contract})
 
 
+# C08 asks for more than C11 does: the letters assigned before the centring shift must still describe the positions that are handed out.
+# The clause is only generated when C08 runs this section (it is refuted on the unchanged tree: known finding of C08, see DESIGN.md I.6b).
+LETTERS_VS_POSITIONS = {"on": False}
+
+
 def _conventional(rep):
     """2D branch of get_conventional_system: non-periodic direction detected from the transformation matrix, pbc (T,T,F) after the swap with the
     non-periodic vector last, cell minimised along it with min_2d_thickness"""
@@ -251,6 +256,16 @@ def _conventional(rep):
                     shift = z3num(t[a]) == centre[a] - z3num(cm[a])
                     alts2.append(z3.And(pred, first, shift))
                 st.prove("periodic-centre-of-mass-moved-to-the-cell-centre-along-the-non-periodic-direction", z3.Or(alts2))
+            if LETTERS_VS_POSITIONS["on"] and len(trs) == 1:
+                # the Wyckoff letters were assigned to the positions of the standardised system; a later shift by anything but a lattice
+                # vector (here: along the non-periodic direction, by centre - centre of mass) leaves them describing other positions
+                t = trs[0]
+                alts3 = []
+                for a in range(3):
+                    pred = z3.And(ab(T[a, k]) > prec, ab(T[a, (k + 1) % 3]) < prec, ab(T[a, (k + 2) % 3]) < prec)
+                    first = z3.And([z3.Not(z3.And(ab(T[b, k]) > prec, ab(T[b, (k + 1) % 3]) < prec, ab(T[b, (k + 2) % 3]) < prec)) for b in range(a)])
+                    alts3.append(z3.And(pred, first, z3num(t[a]) == 0))
+                st.prove("letters-refer-to-the-positions-handed-out", z3.Or(alts3))
             st.prove("letters-from-the-ground-state", z3.BoolVal(ctx["self"]._f.get("_conventional_wyckoff_letters") == "LETTERS"))
 
         run_fv(rep, "conventional[nonperiodic=%d]." % k, m, "SymmetryAnalyzer.get_conventional_system", mk, post, raises=raises, max_paths=4000,
